@@ -274,6 +274,56 @@ __CPROVER_ensures(g_bp >= OLD(NBP) || !BP_IS_JUMP || gb_tgt != -1 || GNERR > OLD
 __CPROVER_ensures(g_cfree >= GNC || (GOP(g_cfree) == gc_op && GPAR(g_cfree, 0) == gc_p0 && GPAR(g_cfree, 1) == gc_p1 && GPAR(g_cfree, 2) == gc_p2)) /*@C03,C01*/
 __CPROVER_ensures(GNC == OLD(GNC) && NBP == 0 && GNERR >= OLD(GNERR) && GNERR <= g_gs->errors._cap) /*@C03*/;
 
+/* ------------------------------------------------------------------ dispatchProgram (C16: a program becomes callable only when
+ * its generation is finished; C01/C03: JMP over the body, RET at the end).  The routine opens a NEW symbol table, so its
+ * callees are described relative to the dynamic top DT; popSymbols records its call in ghosts. */
+#define DT (g_gs->symbols._d[NSYM - 1])
+int g_pop_calls, g_pop_addr;
+unsigned long g_pop_gnc;
+#define REQ_GSP(p) __CPROVER_requires((void *)(p) == (void *)g_gs && NSYM >= 1 && NSYM <= g_gs->symbols._cap && GNC <= g_gs->out.code._cap && \
+                                      NLAB <= g_gs->labels._cap && NBP <= g_gs->backpatching_todo._cap && GNERR <= g_gs->errors._cap)
+#define ASSIGNS_GSP                                                                       \
+  __CPROVER_assigns(g_gs->out.code._n, __CPROVER_object_whole(GCODE), g_gs->labels._n, __CPROVER_object_whole(LABS), \
+                    g_gs->backpatching_todo._n, __CPROVER_object_whole(BPS), g_gs->errors._n, __CPROVER_object_whole(g_gs->errors._d), \
+                    __CPROVER_object_whole(g_gs->symbols._d), g_gs->loops)
+#define ENS_MONO_P                                                                        \
+  __CPROVER_ensures(GNC >= OLD(GNC) && GNC <= g_gs->out.code._cap && NLAB >= OLD(NLAB) && NLAB <= g_gs->labels._cap && NBP >= OLD(NBP) && \
+                    NBP <= g_gs->backpatching_todo._cap && GNERR >= OLD(GNERR) && GNERR <= g_gs->errors._cap && NSYM == OLD(NSYM)) \
+  __CPROVER_ensures(g_c >= OLD(GNC) || (GOP(g_c) == OLD(GOP(g_c)) && GPAR(g_c, 0) == OLD(GPAR(g_c, 0)) && GPAR(g_c, 1) == OLD(GPAR(g_c, 1)) && \
+                                        GPAR(g_c, 2) == OLD(GPAR(g_c, 2)))) \
+  __CPROVER_ensures(g_bp >= OLD(NBP) || BPS[g_bp] == OLD(BPS[g_bp]))
+/* c_dispatchArgs: parameter allocation emits no code */
+void c_dispatchArgs_prog(void *p, void *c) REQ_GSP(p) ASSIGNS_GSP ENS_MONO_P
+__CPROVER_ensures(GNC == OLD(GNC) && NLAB == OLD(NLAB) && NBP == OLD(NBP));
+void c_dispatchVoid_prog(void *p, void *c) REQ_GSP(p) ASSIGNS_GSP ENS_MONO_P;
+int c_fetchVariableRegister_prog(void *p, long name_id) REQ_GSP(p) ASSIGNS_GSP ENS_MONO_P
+__CPROVER_ensures(GNC == OLD(GNC) && NLAB == OLD(NLAB) && NBP == OLD(NBP))
+__CPROVER_ensures(__CPROVER_return_value >= 0 && (unsigned long)__CPROVER_return_value < DT.register_state._n);
+void c_popSymbols_prog(void *p, int addr)
+REQ_GSP(p)
+__CPROVER_requires(NSYM >= 2)
+__CPROVER_assigns(g_gs->symbols._n, g_gs->errors._n, __CPROVER_object_whole(g_gs->errors._d), g_pop_calls, g_pop_addr, g_pop_gnc)
+/* ghost record of the call: with which entry address, and how much code existed */
+__CPROVER_ensures(NSYM == OLD(NSYM) - 1 && g_pop_calls == OLD(g_pop_calls) + 1 && g_pop_addr == addr && g_pop_gnc == GNC)
+__CPROVER_ensures(GNERR >= OLD(GNERR) && GNERR <= g_gs->errors._cap);
+
+void c_dispatchProgram(void *p, void *c)
+REQ_GSP(p)
+__CPROVER_requires(NSYM == 2 && g_pop_calls == 0)
+__CPROVER_assigns(g_gs->out.code._n, __CPROVER_object_whole(GCODE), g_gs->labels._n, __CPROVER_object_whole(LABS),
+                  g_gs->backpatching_todo._n, __CPROVER_object_whole(BPS), g_gs->errors._n, __CPROVER_object_whole(g_gs->errors._d),
+                  g_gs->symbols._n, __CPROVER_object_whole(g_gs->symbols._d), g_gs->loops, g_pop_calls, g_pop_addr, g_pop_gnc)
+/* the definition is skipped by a jump (label operand, patched later) to the label that marks its end */
+__CPROVER_ensures(GNC >= OLD(GNC) + 2 && NLAB >= OLD(NLAB) + 1 && NBP >= OLD(NBP) + 1 && NSYM == OLD(NSYM)) /*@C01,C03,C16*/
+__CPROVER_ensures(g_c != OLD(GNC) || (GOP(g_c) == OP_JMP && GPAR(g_c, PI_jmp_offset) == (int)OLD(NLAB))) /*@C01,C03*/
+__CPROVER_ensures(g_bp != OLD(NBP) || BPS[g_bp] == (int)OLD(GNC)) /*@C01,C03*/
+__CPROVER_ensures(LABS[OLD(NLAB)] == (int)GNC) /*@C01,C03*/
+/* the body ends with RET of a register */
+__CPROVER_ensures(GOP(GNC - 1) == OP_RET && GPAR(GNC - 1, PI_ret_source) >= 0) /*@C01,C03*/
+/* C16: the program is entered into the program table exactly once, AFTER its whole code (including RET) exists, with
+ * the instruction after the jump as entry: no call inside its own body (or earlier) can reach it */
+__CPROVER_ensures(g_pop_calls == 1 && g_pop_addr == (int)OLD(GNC) + 1 && g_pop_gnc == GNC) /*@C16,C03*/;
+
 #ifdef SPEC_CHECKS_OFF
 #pragma CPROVER check pop
 #endif
@@ -356,6 +406,18 @@ void w_dispatchLoop(void *p, void *c);
 void h_fetchTemporary(void) { void *p = setup(); w_fetchTemporary(p); CANARY; }
 void h_fetchVariableRegister(void) { void *p = setup(); w_fetchVariableRegister(p, nondet_long()); CANARY; }
 void h_dispatchLoop(void) { void *p = setup(); void *c; w_dispatchLoop(p, c); CANARY; }
+static node_t n_prog, n_hdr, n_pname, n_ports, n_pargs, n_pout, n_body;
+void w_dispatchProgram(void *p, void *c);
+void h_dispatchProgram(void)
+{
+  void *p = setup();
+  n_prog.left = &n_hdr; n_prog.right = nondet_bool() ? &n_body : 0;
+  n_hdr.left = &n_pname; n_hdr.right = nondet_bool() ? &n_ports : 0; /* PORTS -> epsilon: no ports node */
+  n_ports.left = nondet_bool() ? &n_pargs : 0; n_ports.right = nondet_bool() ? &n_pout : 0;
+  g_pop_calls = 0;
+  w_dispatchProgram(p, &n_prog);
+  CANARY;
+}
 void w_backpatch(void *p);
 void h_backpatch(void) { void *p = setup(); g_cfree = nondet_ulong(); gb_loc = nondet_int(); gb_op = nondet_int(); gb_lab = nondet_int(); gb_p1 = nondet_int(); gb_p2 = nondet_int(); gb_tgt = nondet_int(); w_backpatch(p); CANARY; }
 void w_dispatchWhile(void *p, void *c); void w_dispatchGoto(void *p, void *c); void w_dispatchMark(void *p, void *c);
